@@ -143,7 +143,7 @@ def chunks_ok(obj, k):
                 return False, f"inner chunk of size {len(c)}"
         if got and len(got[-1]) > k:
             return False, "last chunk too large"
-        if obj and any(len(c) == 0 for c in got):
+        if any(len(c) == 0 for c in got):
             return False, "empty chunk"
         return True, ""
     return pred
